@@ -52,6 +52,14 @@ CLAIMED.update({
          "note": "_load_csvpath's source-mode branch and header references are covered only by the bounded runs; tracked-variable variant of _variable_value bounded.",
          "tech": BT},
 })
+CLAIMED.update({
+ "C11": {"cat": "other", "text": "Proved: FileRegistrar.register_complete distributes exactly one manifest entry per change of the CURRENT version (bytes or source file name) and none for a repeat, comparing with the last entry only. Bounded: operation sequences {add, mutate source, remove, new instance} on the real FileManager against the abstract view name -> versions the property gives (content addressing, immutability of every registered version, fresh-instance agreement).",
+         "note": "_copy_in / _fingerprint (shutil, os.rename, hashlib) are covered only by the bounded sequences; no '#mark' / s3 paths.",
+         "tech": BT},
+ "C12": {"cat": "other", "text": "Proved (unbounded member lists, loop invariants over array-encoded lists): _find_one / _get_from / _get_to select exactly the member, the suffix and the prefix at the first matching identity; CsvPath.identity's precedence id>Id>ID>name>Name>NAME; PathsRegistrar.metadata_update writes one manifest entry carrying the fingerprint per change of the last fingerprint and none for an identical re-add (effect log for json.dump). Bounded: add / re-add / replace / remove / new-instance sequences and round trips on the real PathsManager.",
+         "note": "The split/join round trip of the stored group file (_str_from_list/_get_named_paths) and the comment scanner are covered by the bounded runs only.",
+         "tech": BT},
+})
 NA_REASON = {}
 m = {
  "version": 1, "setup_cmd": "./setup.sh",
